@@ -1,1 +1,498 @@
-//! Generators for the misc monitors.
+//! Generators for C18 (package names), C19 (package paths, dependencies) and
+//! C20 (package database trees).
+
+use crate::gen::version as gv;
+use crate::oracle::misc::{META_FILES, MANDATORY};
+use crate::rng::Rng;
+
+// ---------------------------------------------------------------------------
+// C18
+// ---------------------------------------------------------------------------
+
+const BASE_PARTS: [&str; 22] = [
+    "foo", "libnbcompat", "nb", "nb3", "p5", "", "\u{e9}", "py312", "x_y", "1.0", "..", "gnb",
+    "Foo", "nbnb", "f", "\u{65e5}\u{672c}", "a b", "2nb", "+x", "NB", "mysqlclient", "0",
+];
+
+/// 1..=18 digits, optionally with leading zeros; returns (spelling, value).
+pub fn rev_digits(r: &mut Rng, min: i64, max: i64) -> (String, i64) {
+    let n = loop {
+        let d = r.range(1, 18);
+        let mut n: i64 = 0;
+        for i in 0..d {
+            let digit = if i == 0 && d > 1 { r.range(1, 9) } else { r.below(10) } as i64;
+            n = n * 10 + digit;
+        }
+        if r.chance(1, 8) {
+            n = *r.pick(&[0, 1, 2, 9, 10, 99, 999_999_999_999_999_998, 999_999_999_999_999_999]);
+        }
+        if n >= min && n <= max {
+            break n;
+        }
+    };
+    let mut s = n.to_string();
+    if r.chance(1, 5) {
+        let room = 18 - s.len();
+        let z = r.below(room.min(3) + 1);
+        s = format!("{}{s}", "0".repeat(z));
+    }
+    (s, n)
+}
+
+const PREFIX_TOKENS: [&str; 16] = [
+    ".", ".", "_", "alpha", "beta", "rc", "pre", "pl", "nb1", "nb12", "nb", "+", "~", ",", "\u{e9}", " ",
+];
+
+/// Version text without free letters and without upper case: digits, dots,
+/// modifiers, inner `nb` tokens and ignorable junk.  May be empty.
+pub fn safe_prefix(r: &mut Rng) -> String {
+    loop {
+        let n = match r.below(8) {
+            0 => 0,
+            1 => 1,
+            _ => r.range(2, 6),
+        };
+        let mut s = String::new();
+        if n > 0 && r.chance(3, 4) {
+            s.push_str(&r.below(30).to_string());
+        }
+        for _ in 0..n {
+            if r.chance(2, 5) {
+                s.push_str(&r.below(200).to_string());
+            } else {
+                s.push_str(*r.pick(&PREFIX_TOKENS));
+            }
+        }
+        if gv::usable(&s) && !gv::has_free_letter(&s) {
+            return s;
+        }
+    }
+}
+
+/// A version that contains no `nb` in any case.
+pub fn plain_version(r: &mut Rng) -> String {
+    loop {
+        let s = match r.below(4) {
+            0 => gv::v(r),
+            1 => String::new(),
+            _ => {
+                let n = r.range(1, 5);
+                let mut s = r.below(30).to_string();
+                for _ in 0..n {
+                    match r.below(6) {
+                        0 => s.push_str(*r.pick(&["alpha", "beta", "rc", "pre", "pl", "a", "n", "b", "bn"])),
+                        1 => s.push('_'),
+                        2 => s.push_str(&r.below(1000).to_string()),
+                        _ => {
+                            s.push('.');
+                            s.push_str(&r.below(30).to_string());
+                        }
+                    }
+                }
+                s
+            }
+        };
+        if !s.contains('-') && crate::oracle::misc::revision(&s) == crate::oracle::misc::Revision::NoNb {
+            return s;
+        }
+    }
+}
+
+/// A version ending in `nb<digits>`, possibly with further `nb` inside.
+pub fn nb_version(r: &mut Rng) -> String {
+    let prefix = match r.below(6) {
+        0 => String::new(),
+        1 => "1nb3alpha2".to_string(),
+        2 => format!("{}nb", safe_prefix(r)),
+        3 => {
+            // arbitrary text, upper case and free letters included
+            loop {
+                let v = gv::v(r);
+                if !v.contains('-') {
+                    break v;
+                }
+            }
+        }
+        _ => safe_prefix(r),
+    };
+    let (digits, _) = rev_digits(r, 0, 999_999_999_999_999_999);
+    format!("{prefix}nb{digits}")
+}
+
+/// Arbitrary package-name-like string with 0..=4 dashes.
+pub fn name(r: &mut Rng) -> String {
+    let dashes = r.below(5);
+    let mut parts: Vec<String> = vec![];
+    for _ in 0..dashes {
+        parts.push(r.pick(&BASE_PARTS).to_string());
+    }
+    let last = match r.below(10) {
+        0..=3 => nb_version(r),
+        4..=6 => plain_version(r),
+        7 => r.pick(&["1nb3alpha", "1.0nb", "1.0NB3", "nb", "1.0Nb2", "", "1.0nb+5", "nbx"]).to_string(),
+        8 => r.pick(&BASE_PARTS).to_string(),
+        _ => loop {
+            let v = gv::v(r);
+            if !v.contains('-') {
+                break v;
+            }
+        },
+    };
+    parts.push(last);
+    parts.join("-")
+}
+
+pub struct Probe {
+    pub base: String,
+    pub prefix: String,
+    pub digits: String,
+    pub n: i64,
+}
+
+const PROBE_BASES: [&str; 10] = [
+    "foo", "libnbcompat", "foo-bar", "p5-nb3-x", "\u{e9}", "nb", "py312-nb", "f", "a-1.0nb9", "x_y.z",
+];
+
+/// `base-PREFIXnbN` for the black-box revision probe: PREFIX is free of
+/// letters outside modifiers (keeps known finding K1 away), 1 <= N and
+/// N + 1 still has at most 18 digits.
+pub fn probe(r: &mut Rng) -> Probe {
+    let base = r.pick(&PROBE_BASES).to_string();
+    let prefix = safe_prefix(r);
+    let (digits, n) = rev_digits(r, 1, 999_999_999_999_999_998);
+    Probe { base, prefix, digits, n }
+}
+
+// ---------------------------------------------------------------------------
+// C19
+// ---------------------------------------------------------------------------
+
+pub const SEGS: [&str; 5] = ["..", ".", "a", "b-1", ""];
+
+/// The `i`-th string of the exhaustive family: `n` segments from `SEGS`
+/// (`code` in base 5), optional leading '/', '/' or '//' as separator.
+pub fn exhaustive_path(n: usize, mut code: usize, leading: bool, double: bool) -> String {
+    let mut s = String::new();
+    if leading {
+        s.push('/');
+    }
+    for i in 0..n {
+        if i > 0 {
+            s.push_str(if double { "//" } else { "/" });
+        }
+        s.push_str(SEGS[code % 5]);
+        code /= 5;
+    }
+    s
+}
+
+const ODD_SEGS: [&str; 22] = [
+    "..", ".", "a", "b-1", "", ".. ", "...", " ", "a b", "\u{e9}", "\u{65e5}\u{672c}", "-", "~",
+    ":", "*", "a:b", " ..", ". ", "\t", "..a", "\0", "a\0b",
+];
+
+/// Seeded longer / odd paths.  Strings that contain NUL are only kept when
+/// the rule rejects them anyway (whether a NUL name is "ordinary" is not
+/// stated).
+pub fn odd_path(r: &mut Rng) -> String {
+    loop {
+        let n = r.below(11);
+        let mut s = String::new();
+        if r.chance(1, 6) {
+            s.push('/');
+        }
+        for i in 0..n {
+            if i > 0 {
+                s.push_str(match r.below(6) {
+                    0 => "//",
+                    1 => "///",
+                    _ => "/",
+                });
+            }
+            if r.chance(1, 2) {
+                s.push_str(*r.pick(&SEGS));
+            } else {
+                s.push_str(*r.pick(&ODD_SEGS));
+            }
+        }
+        if s.contains('\0') && crate::oracle::misc::pkgpath_rule(&s).is_some() {
+            continue;
+        }
+        return s;
+    }
+}
+
+pub const DEP_PATTERNS: [&str; 26] = [
+    // simple
+    "foo-1.0",
+    "foo",
+    "",
+    // dewey
+    "foo>=1.0",
+    "foo>=1<2",
+    "foo<3nb1",
+    "foo>1>2",
+    "foo<1>=2",
+    "foo>=1<2<3",
+    // glob
+    "foo-[0-9]*",
+    "foo-*",
+    "fo?-1.[0-9]",
+    "foo-[0-9",
+    "foo-***",
+    "foo-[z-a]*",
+    // alternation
+    "{foo,bar}-[0-9]*",
+    "foo{,-bar}>=1",
+    "{a{b,c},d}-1.0",
+    "{foo",
+    "foo}",
+    "}{",
+    "{foo,bar}>1>2",
+    // odd
+    "\u{e9}-[0-9]*",
+    "foo bar>=1",
+    "mktool-[0-9]*",
+    "py312-build>=0",
+];
+
+pub const DEP_PATHS: [&str; 16] = [
+    "cat/pkg",
+    "../../cat/pkg",
+    "cat//pkg/",
+    "cat/./pkg",
+    "..//../cat/pkg",
+    "\u{e9}/b-1",
+    "pkg",
+    "../cat/pkg",
+    "/cat/pkg",
+    "a/b/c",
+    "",
+    "../../a/..",
+    "./a/b",
+    "../../pkg",
+    "../../../cat/pkg",
+    "a/b/../..",
+];
+
+/// All ways of combining a pattern and a path with 0..=3 colons, including
+/// forms in which an extra colon sits inside an otherwise valid half (so
+/// that splitting at the first or the last colon only would accept them).
+pub fn depend_forms(p: &str, q: &str) -> Vec<String> {
+    let mut v = vec![
+        // 0 colons
+        format!("{p}{q}"),
+        p.to_string(),
+        q.to_string(),
+        // 1 colon
+        format!("{p}:{q}"),
+        // 2 colons
+        format!("{p}::{q}"),
+        format!("{p}:{q}:"),
+        format!(":{p}:{q}"),
+        format!("{p}:x:{q}"),
+        format!("{p}:{q}:x"),
+        format!("x:{p}:{q}"),
+        // 3 colons
+        format!("{p}:::{q}"),
+        format!("x:{p}:{q}:y"),
+        format!("{p}:x:y:{q}"),
+        format!(":{p}:{q}:"),
+    ];
+    // extra colon inside the last path segment / inside the pattern
+    if !q.is_empty() && !q.ends_with('/') {
+        v.push(format!("{p}:{q}:g"));
+        v.push(format!("{p}:{q}:g:h"));
+    }
+    if !p.is_empty() {
+        v.push(format!("x:{p}:{q}"));
+        v.push(format!("x:y:{p}:{q}"));
+    }
+    v
+}
+
+// ---------------------------------------------------------------------------
+// C20
+// ---------------------------------------------------------------------------
+
+pub struct PkgDir {
+    pub name: String,
+    /// Content per entry of `META_FILES`; `None` = file absent.
+    pub files: [Option<String>; 14],
+    /// Extra plain files inside the directory (name, content).
+    pub extra: Vec<(String, String)>,
+    /// Bit i set = mandatory file `MANDATORY[i]` missing.
+    pub missing_mask: u8,
+}
+
+impl PkgDir {
+    pub fn complete(&self) -> bool {
+        self.missing_mask == 0
+    }
+}
+
+pub struct Tree {
+    pub dirs: Vec<PkgDir>,
+    /// Plain files in the database directory itself.
+    pub stray: Vec<(String, String)>,
+}
+
+const NAME_PARTS: [&str; 14] = [
+    "foo", "lib", "p5", "py312", "nb", "nb3", "\u{e9}", "x_y", "1.0", "mysql", "Foo", "a+b", "9", "z.z",
+];
+
+fn dir_name(r: &mut Rng) -> String {
+    let dashes = r.range(1, 4);
+    let mut parts: Vec<String> = vec![];
+    for _ in 0..dashes {
+        parts.push(r.pick(&NAME_PARTS).to_string());
+    }
+    let version = match r.below(8) {
+        0 => format!("{}.{}nb{}", r.below(20), r.below(20), r.below(40)),
+        1 => format!("{}nb{}", r.below(20), r.below(400)),
+        2 => "1nb3alpha2nb7".to_string(),
+        3 => format!("{}", r.below(100_000)),
+        4 => format!("{}.{}alpha{}", r.below(9), r.below(9), r.below(9)),
+        5 => "nb2".to_string(),
+        _ => format!("{}.{}.{}", r.below(20), r.below(20), r.below(20)),
+    };
+    parts.push(version);
+    let mut s = parts.join("-");
+    // rare: empty base or empty version (still one '-')
+    match r.below(40) {
+        0 => s = format!("-{}", r.below(100)),
+        1 => s = format!("{}-", r.pick(&NAME_PARTS)),
+        _ => {}
+    }
+    s
+}
+
+fn content(r: &mut Rng, dir: &str, file: &str, serial: usize) -> String {
+    match r.below(6) {
+        0 => format!("{file} of {dir} #{serial}"),
+        1 => format!("{file} of {dir} #{serial}\nsecond line\n\nfourth \u{e9}\u{20ac} line\n"),
+        2 => format!("  {file} of {dir} #{serial}  \n\n"),
+        3 => format!("\n{file} of {dir} #{serial}"),
+        _ => format!("{file} of {dir} #{serial}\n"),
+    }
+}
+
+/// A package database tree: 0..=12 package directories, every missing-subset
+/// of the mandatory files, optional files, stray files.
+pub fn tree(r: &mut Rng, serial: &mut usize) -> Tree {
+    let ndirs = match r.below(10) {
+        0 => 0,
+        1 => 1,
+        _ => r.range(2, 12),
+    };
+    let mut dirs: Vec<PkgDir> = vec![];
+    let mut used: Vec<String> = vec![];
+    for _ in 0..ndirs {
+        let name = loop {
+            let n = dir_name(r);
+            if !used.contains(&n) {
+                break n;
+            }
+        };
+        used.push(name.clone());
+        let missing_mask: u8 = if r.chance(1, 2) { 0 } else { r.range(1, 7) as u8 };
+        let mut files: [Option<String>; 14] = Default::default();
+        // 0 none, 1 all, else random (kept light: the scratch file system is slow)
+        let optional_mode = match r.below(10) {
+            0..=3 => 0,
+            4 => 1,
+            _ => 2,
+        };
+        for (i, f) in META_FILES.iter().enumerate() {
+            let present = if let Some(bit) = MANDATORY.iter().position(|&m| m == i) {
+                missing_mask & (1 << bit) == 0
+            } else {
+                match optional_mode {
+                    0 => false,
+                    1 => true,
+                    _ => r.chance(1, 4),
+                }
+            };
+            if present {
+                *serial += 1;
+                let mandatory = MANDATORY.contains(&i);
+                files[i] = Some(if !mandatory && r.chance(1, 8) {
+                    String::new()
+                } else if f.starts_with("+SIZE") && r.chance(1, 2) {
+                    format!("{}\n", r.below(1_000_000))
+                } else {
+                    content(r, &name, f, *serial)
+                });
+            }
+        }
+        let mut extra = vec![];
+        if r.chance(1, 4) {
+            for f in ["README", "+BOGUS", "+desc", "COMMENT", "+CONTENTS.bak"] {
+                if r.chance(1, 3) {
+                    *serial += 1;
+                    extra.push((f.to_string(), format!("extra {f} #{serial}")));
+                }
+            }
+        }
+        dirs.push(PkgDir { name, files, extra, missing_mask });
+    }
+    let mut stray = vec![];
+    if r.chance(1, 2) {
+        for f in ["pkg-vulnerabilities", "pkgdb.byfile.db", "+COMMENT", "+CONTENTS", "+DESC", "empty"] {
+            if r.chance(1, 3) {
+                *serial += 1;
+                let c = if f == "empty" { String::new() } else { format!("stray {f} #{serial}") };
+                stray.push((f.to_string(), c));
+            }
+        }
+        // plain files named like packages
+        for _ in 0..r.below(3) {
+            let n = dir_name(r);
+            if !used.contains(&n) {
+                used.push(n.clone());
+                *serial += 1;
+                stray.push((n, format!("plain file #{serial}")));
+            }
+        }
+    }
+    Tree { dirs, stray }
+}
+
+/// Near-miss file names that must not map to a metadata entry.
+pub const NEAR_MISS: [&str; 30] = [
+    "+desc", "DESC", "+DESC ", " +DESC", "+SIZE", "", "+", "+BADFILE", "+COMMENTS", "+CONTENT",
+    "+BUILD-INFO", "+build_info", "COMMENT", "++DESC", "+DESC\n", "+SIZE_", "+SIZE_PKG0",
+    "+REQUIRED-BY", "+MTREE", "+INSTALLED", "+DEINSTALL ", "+DE_INSTALL", "+Desc", "+DESC\0",
+    "+BUILD_INFOS", "+PRESERV", "+SIZE_AL", "+INSTALL_INFO", "+DISPLAYS", "-DESC",
+];
+
+/// One-edit mutation of a real file name.
+pub fn mutate_name(r: &mut Rng) -> String {
+    let base = *r.pick(&META_FILES);
+    let mut b: Vec<u8> = base.as_bytes().to_vec();
+    match r.below(5) {
+        0 => {
+            let i = r.below(b.len());
+            b.remove(i);
+        }
+        1 => {
+            let i = r.below(b.len() + 1);
+            b.insert(i, *r.pick(b"ABCDEFGHIJKLMNOPQRSTUVWXYZ_+ abc"));
+        }
+        2 => {
+            let i = r.below(b.len());
+            b[i] = *r.pick(b"ABCDEFGHIJKLMNOPQRSTUVWXYZ_+ abc");
+        }
+        3 => {
+            let i = r.below(b.len());
+            b[i] = if b[i].is_ascii_uppercase() { b[i].to_ascii_lowercase() } else { b[i].to_ascii_uppercase() };
+        }
+        _ => {
+            if b.len() >= 2 {
+                let i = r.below(b.len() - 1);
+                b.swap(i, i + 1);
+            }
+        }
+    }
+    String::from_utf8(b).unwrap_or_default()
+}
